@@ -91,7 +91,16 @@ fn script(conn: &mut Connection, ch1: &Channel, h: &Handle, inject_at: Option<(u
         let m2 = msg(2, 5000);
         let fr = deliver_frames(1, &tag, &m2, &even_partition(5000, 2000));
         h.inject(fr[..3].concat()); // method, header, first body frame
-        step("qos", ch1.qos(0, 10, false), &mut out);
+        // while that content is outstanding, calls go on elsewhere (not on channel 1: a reply
+        // in the middle of a channel's content would be a framing error of the broker's)
+        match conn.open_channel(Some(6)) {
+            Ok(c6) => {
+                out.push(("open_channel(6)".into(), Ok(())));
+                step("qos", c6.qos(0, 10, false), &mut out);
+                step("channel_close(6)", c6.close(), &mut out);
+            }
+            Err(e) => out.push(("open_channel(6)".into(), Err(ek(&e)))),
+        }
         h.inject(fr[3..].concat());
     }
     inj(0);
